@@ -14,6 +14,7 @@ import (
 	"fmt"
 	"net"
 	"os"
+	"sort"
 	"strings"
 	"sync"
 	"syscall"
@@ -79,14 +80,19 @@ type vfWiring struct {
 	udp      int
 	tcp      int
 	nreq     int
+	hosts    vfM // the two host tables of the configuration (service level, top level) when the case has any
 }
 
 func (w *vfWiring) reset(id string, recv bool, udp, tcp int) {
 	w.id, w.recv, w.udp, w.tcp = id, recv, udp, tcp
 	la := w.g.ip("10.0.0.1")
 	all := vfM{"p1.t1": vfM{"lid": "p1.t1", "proto": "UDP", "addr": la, "port": udp}, "p1.t2": vfM{"lid": "p1.t2", "proto": "TCP", "addr": la, "port": tcp}}
-	w.tr.Emit(vfM{"ev": "reset", "case": id, "cfg": vfM{"keep": w.keep, "names": vfNameRecs(), "static": []vfM{}, "all": all,
-		"proxies": []vfM{{"trans": []string{"p1.t1", "p1.t2"}, "mustrr": false, "recv": recv}}}})
+	cfg := vfM{"keep": w.keep, "names": vfNameRecs(), "static": []vfM{}, "all": all,
+		"proxies": []vfM{{"trans": []string{"p1.t1", "p1.t2"}, "mustrr": false, "recv": recv}}}
+	if w.hosts != nil {
+		cfg["hosts"] = w.hosts
+	}
+	w.tr.Emit(vfM{"ev": "reset", "case": id, "cfg": cfg})
 }
 
 func (w *vfWiring) request(ruri string, route string, viaProto, viaHost string, rport string, n int) []byte {
@@ -447,6 +453,106 @@ func TestVfKeepWiring(t *testing.T) {
 			vfAllSinks.pollAll()
 			cli.WriteToUDP(raw, &net.UDPAddr{IP: net.ParseIP(la), Port: udp})
 			w.emit("keep-wiring", "p1.t1", g.ip("10.0.5.5"), cport, raw, vfWaitSinks(2*time.Second))
+		}
+		cli.Close()
+		ncase++
+	}
+	fmt.Printf("VF cases=%d events=%d\n", ncase, tr.n)
+}
+
+// TestVfHostsWiring: the host tables of the YAML configuration as the alias of C13 ("a host equal to the listener
+// address or an alias that resolves to it").  A name may be declared in the top-level table shared by all services, in
+// the table of the service, or in both; the table of the service is the more specific one and decides (HostTable in
+// ProxyOps.tla).  Services are started through loadConfigFromReader + createPreConfigHostResolver + startProxy; requests
+// whose first Route entry names the alias arrive on the real UDP listener; the trace carries both tables, TLC
+// computes what the alias resolves to and judges consumption / relayed Route set.
+func TestVfHostsWiring(t *testing.T) {
+	tr := vfOpenTrace(t, "VERIF_TRACE")
+	defer tr.Close()
+	g := &vfGamma{base: vfIPBase(), rnd: vfRand(14)}
+	w := &vfWiring{t: t, tr: tr, g: g}
+	la, la2, foreign := g.ip("10.0.0.1"), g.ip("10.0.0.2"), g.ip("10.0.9.9")
+	vfAllSinks.get(t, g.ip("10.0.1.1"), 5070) // the next hop behind the alias entry
+	vfAllSinks.get(t, g.ip("10.0.4.1"), 5060) // the backend
+	type tab map[string]string
+	type hc struct {
+		name        string
+		svc, global tab
+	}
+	cases := []hc{
+		{"global-only", tab{}, tab{"sip-lb": la}},
+		{"service-only", tab{"sip-lb": la}, tab{}},
+		{"both-same", tab{"sip-lb": la}, tab{"sip-lb": la}},
+		{"service-says-listener-global-says-foreign", tab{"sip-lb": la}, tab{"sip-lb": foreign}},
+		{"service-says-foreign-global-says-listener", tab{"sip-lb": foreign}, tab{"sip-lb": la}},
+		{"service-says-listener-global-says-other-service", tab{"sip-lb": la, "peer-lb": la2}, tab{"sip-lb": la2, "peer-lb": la}},
+		{"other-names-around", tab{"a.example": foreign, "sip-lb": la, "z.example": foreign}, tab{"b.example": la, "sip-lb": foreign, "y.example": la}},
+	}
+	ncase := 0
+	for ci, c := range cases {
+		udp, tcp := vfFreePort(t, la), vfFreePort(t, la)
+		for _, ip := range []string{foreign, la2} {
+			vfAllSinks.get(t, ip, udp) // where a request goes whose first Route entry is NOT the listener
+		}
+		var y strings.Builder
+		fmt.Fprintf(&y, "proxies:\n- name: hosts%d.example.com\n  listens:\n  - address: %s\n    udp-port: %d\n    tcp-port: %d\n    backends:\n    - udp://%s:5060\n", ci, la, udp, tcp, g.ip("10.0.4.1"))
+		wr := func(ind string, tb tab) {
+			var ks []string
+			for k := range tb {
+				ks = append(ks, k)
+			}
+			sort.Strings(ks)
+			if len(ks) == 0 {
+				return
+			}
+			fmt.Fprintf(&y, "%shosts:\n", ind)
+			for _, k := range ks {
+				fmt.Fprintf(&y, "%s- name: %s\n%s  ip: %s\n", ind, k, ind, tb[k])
+			}
+		}
+		wr("  ", c.svc)
+		wr("", c.global)
+		cfg, err := loadConfigFromReader(strings.NewReader(y.String()))
+		if err != nil {
+			t.Fatalf("VF-INFRA yaml: %v\n%s", err, y.String())
+		}
+		for _, pc := range cfg.Proxies {
+			if err := startProxy(pc, createPreConfigRoute(pc), createPreConfigHostResolver(cfg.Hosts, pc)); err != nil {
+				t.Fatalf("VF-INFRA startProxy: %v", err)
+			}
+		}
+		time.Sleep(30 * time.Millisecond)
+		toM := func(tb tab) vfM {
+			m := vfM{"-": "-"} // never empty: an empty JSON object has no TLA+ function reading
+			for k, v := range tb {
+				m[k] = v
+			}
+			return m
+		}
+		w.keep = false
+		w.hosts = vfM{"svc": toM(c.svc), "global": toM(c.global)}
+		w.reset(fmt.Sprintf("hostswiring%d-%s", ci, c.name), true, udp, tcp)
+		cli, err := net.ListenUDP("udp", &net.UDPAddr{IP: net.ParseIP(g.ip("10.0.5.5")), Port: 0})
+		if err != nil {
+			t.Fatalf("VF-INFRA %v", err)
+		}
+		cport := cli.LocalAddr().(*net.UDPAddr).Port
+		aliases := []string{"sip-lb"}
+		if _, ok := c.svc["peer-lb"]; ok {
+			aliases = append(aliases, "peer-lb")
+		}
+		n := 0
+		for _, al := range aliases {
+			for _, route := range []string{
+				fmt.Sprintf("<sip:%s:%d;lr>, <sip:%s:5070;lr>", al, udp, g.ip("10.0.1.1")),
+				fmt.Sprintf("<sip:%s:%d;lr>, <sip:%s:5070;lr>, <sip:%s:5080;lr>", al, udp, g.ip("10.0.1.1"), g.ip("10.0.1.7")),
+				fmt.Sprintf("\"LB\" <sip:x@%s:%d;lr>", al, udp)} {
+				n++
+				raw := w.request(fmt.Sprintf("sip:bob@elsewhere%d.example", ci), route, "UDP", fmt.Sprintf("%s:5062", g.ip("10.0.2.1")), "", 4000+n)
+				vfAllSinks.pollAll()
+				cli.WriteToUDP(raw, &net.UDPAddr{IP: net.ParseIP(la), Port: udp})
+				w.emit("hosts-wiring alias="+al+" "+c.name, "p1.t1", g.ip("10.0.5.5"), cport, raw, vfWaitSinks(1500*time.Millisecond))
+			}
 		}
 		cli.Close()
 		ncase++
